@@ -56,13 +56,17 @@ CLAIMS = {
   technique="contract-based deductive verification (loop invariants over record arrays, frame clauses) + bounded stand-ins for 4 functions",
   design_ref="DESIGN.md section 6, C18"),
  "C19": dict(
-  category="proof",
-  text="Contract-based deductive proof (prefix-sum ghost function over the reals) that symmetric_moving_average returns the mean of "
-       "a[max(0,i-w)..min(n-1,i+w)] for every waveform and wing width; gap-threshold clustering of find_peaks, area conservation of the "
-       "hits->peaks->sum_waveform chain, replace_merged and the tiling of split peaks are bounded stand-ins against direct definitions "
-       "(labelled bounded). Known finding F10 (overlap after a max_duration cut) is reported as KNOWN-FINDING.",
-  note="Only one function is proved; the clustering / summing / merging / splitting clauses rest on bounded stand-ins; area-fraction times, "
-       "widths and highest-density regions are not covered. Floats are modelled as reals in the proof.",
+  category="exploration",
+  text="Bounded exploration on the real code against direct definitions - this is what decides most of the property: find_peaks = "
+       "gap-threshold clusters with the duration / area / channel cuts and all peak fields, area conservation of the "
+       "hits->peaks->sum_waveform chain, store_downsampled_waveform (smallest fitting factor, block sums, only a fractional tail "
+       "dropped), merge_peaks, replace_merged, tiling of split peaks by both split finders (also on down-sampled parents), sum_waveform "
+       "on split children, index_of_fraction against its defining formula. One helper is proved deductively for all inputs: "
+       "symmetric_moving_average returns the mean of a[max(0,i-w)..min(n-1,i+w)] for every waveform and wing width (prefix-sum ghost "
+       "function over the reals). Known finding F10 (overlap after a max_duration cut) is reported as KNOWN-FINDING.",
+  note="The level is 'exploration', not 'proof': only one function is under contract (the peak kernels are growing_result generators "
+       "over float fields, outside the verifier's subset - said in DESIGN.md); widths and highest-density regions are not covered. "
+       "Floats are modelled as reals in the one proof.",
   technique="contract-based deductive verification (ghost prefix sums, z3) + bounded stand-ins",
   design_ref="DESIGN.md section 6, C19"),
  "C10": dict(
@@ -300,9 +304,9 @@ CLAIMS = {
        "save and stored subset - is a bounded stand-in on the real Context for a graph with row-wise, filtering, same-kind merging, "
        "multi-output, overlap-window and exhaust plugins.",
   note="The composition is NOT proved: Plugin.iter's buffering, the PostOffice as a whole, divide_outputs, loop plugins; the stand-in "
-       "covers them on its scope (a down-chunking plugin and a plugin paced by it are in its graph). OPEN GAP: "
-       "ParallelSourcePlugin.inline_plugins is neither under contract nor in the stand-in's scope (process pools); a seeded change "
-       "there is not detected (DESIGN.md 10.5). 'All thread schedules' is covered for the mailbox layer by C05 only; the stand-in "
+       "covers them on its scope (a down-chunking plugin and a plugin paced by it are in its graph). ParallelSourcePlugin.inline_plugins "
+       "is not under contract; a separate bounded stand-in runs the real Context with a process pool (a stateful parallel=False plugin "
+       "must not be inlined). 'All thread schedules' is covered for the mailbox layer by C05 only; the stand-in "
        "runs under the OS scheduler.",
   technique="contract-based deductive verification of the building blocks + bounded stand-in on the real Context for the composition",
   design_ref="DESIGN.md section 6 (C01) and 10"),
